@@ -425,8 +425,20 @@ class C12(Check):
                     all_forms(with_checksum(t[:-4]), "truncate-extend-rechecksum", ("bytes", "dec") if bi < 3 else ("bytes",))
             for ext in range(1, 17):
                 e = b + bytes(rng.getrandbits(8) for _ in range(ext))
-                all_forms(e, "extend", ("bytes", "str", "hex", "dec") if bi < 3 else ("bytes", "str"))
+                all_forms(e, "extend", ("bytes", "str", "hex", "dec") if bi < 3 else ("bytes", "str", "dec"))
                 all_forms(b + b[-4:] * (ext // 4) + b[-4:][:ext % 4], "extend-repeat-checksum", ("bytes",))
+        # consensus form: the length prefix is part of the spelling - longer / shorter than the blob, with and without the bytes it
+        # promises, non-minimal, zero
+        for b in base:
+            for k in (1, 2, 3, 8, 50, 178, 2 ** 14, 2 ** 32):
+                add("addr_dec " + hx(leb128(len(b) + k) + b), "consensus-prefix-too-long/no-data")
+                if k <= 178:
+                    add("addr_dec " + hx(leb128(len(b) + k) + b + bytes(k)), "consensus-prefix-too-long/zero-data")
+                    add("addr_dec " + hx(leb128(len(b) + k) + b + b[-4:] * (k // 4 + 1)), "consensus-prefix-too-long/checksum-data")
+            for k in (1, 4, 8, len(b)):
+                add("addr_dec " + hx(leb128(len(b) - k) + b), "consensus-prefix-too-short")
+            add("addr_dec " + hx(bytes([0x80 | len(b), 0x00]) + b), "consensus-prefix-non-minimal")
+            add("addr_dec " + hx(b), "consensus-no-prefix")
         # all 256 tags at both lengths under a correct checksum
         s, v = valid[0], valid[1]
         for tag in range(256):
